@@ -35,7 +35,7 @@ ASSUMPTIONS = [
 ]
 REQUIRED_REACH = {"monitor.baseline_metrics": 300, "contract.safe_divide": 1000, "monitor.reporting_metrics": 50,
                   "monitor.caltrack_metrics": 50, "monitor.hourly_stored_vs_predict": 3, "monitor.hourly_gate": 6,
-                  "monitor.daily_error": 4, "monitor.daily_gate": 4, "ratio.undefined_expected": 20, "monitor.hourly_gate_undefined_metric": 2, "monitor.hourly_gate_undefined_metric_straddled": 3, "data.hourly_weather_gaps_away_from_meter_gaps": 4, "monitor.daily_model_object_reused": 2}
+                  "monitor.daily_error": 4, "monitor.daily_gate": 4, "ratio.undefined_expected": 20, "monitor.hourly_gate_undefined_metric": 2, "monitor.hourly_gate_undefined_metric_straddled": 3, "data.hourly_weather_gaps_away_from_meter_gaps": 4, "monitor.reporting_metrics_local_zone_index": 20, "monitor.daily_model_object_reused": 2}
 
 VIOL = []
 CTX = {"where": "direct"}
@@ -235,7 +235,12 @@ def _direct(spec, rng, keys, hist):
         # ---- ReportingMetrics on a second pair of series --------------------------------------
         if ref["n"] >= 2 and ref.get("cvrmse_autocorr_adj") is not None and d.get("cvrmse_autocorr_adj") is not None and it % 3 == 0:
             m = int(rng.integers(2, 800))
-            ridx = pd.date_range("2020-01-01", periods=m, freq=freq, tz="UTC")
+            # reporting rows stamped in the meter's own zone (east and west of UTC, naive, UTC), starting on a month boundary or inside a month:
+            # the number of calendar months the rows touch is a LOCAL calendar notion
+            rtz = [None, "UTC", "Europe/Berlin", "Australia/Sydney", "Asia/Tokyo", "America/Los_Angeles", "Asia/Kolkata"][int(rng.integers(0, 7))]
+            ridx = pd.date_range(str(rng.choice(["2020-01-01", "2020-02-01", "2021-03-01", "2020-06-15", "2021-11-01"])), periods=m, freq=freq, tz=rtz)
+            if rtz not in (None, "UTC"):
+                I.reach("monitor.reporting_metrics_local_zone_index")
             ro = rng.uniform(0.5, 2, m) * abs(ref["observed"]["mean"])
             rp = ro * rng.uniform(0.8, 1.3, m)
             if rng.random() < 0.4:
